@@ -476,6 +476,18 @@ func (env *CEnv) evalCall(x *ast.CallExpr) (Value, types.Type) {
 				cfail("unknown type %s", tn)
 			}
 			return BoolV{c.hasType(asInt(v), t)}, tBool
+		case "cast":
+			v, _ := env.eval(x.Args[0])
+			lit, ok := x.Args[1].(*ast.BasicLit)
+			if !ok {
+				cfail("cast needs a string literal")
+			}
+			tn, _ := strconv.Unquote(lit.Value)
+			t := c.eng.typeByName(tn)
+			if t == nil {
+				cfail("unknown type %s", tn)
+			}
+			return c.fromInterface(env.s, asInt(v), t), t
 		case "seqeq":
 			a, at := env.eval(x.Args[0])
 			b, _ := env.eval(x.Args[1])
@@ -504,6 +516,8 @@ func (env *CEnv) evalCall(x *ast.CallExpr) (Value, types.Type) {
 			}
 			name, _ := strconv.Unquote(lit.Value)
 			return IntV{c.heapGet(env.s, "X."+name, sInt)}, tInt
+		case "pbwf":
+			return BoolV{c.pbReqFacts(env.s)}, tBool
 		case "variant":
 			// value of the decreases-expression of loop n at its current head (usable inside that loop's body)
 			lit, ok := x.Args[0].(*ast.BasicLit)
@@ -524,6 +538,20 @@ func (env *CEnv) evalCall(x *ast.CallExpr) (Value, types.Type) {
 			name, _ := strconv.Unquote(lit.Value)
 			iv, _ := env.eval(x.Args[1])
 			return IntV{sel(c.heapGet(env.s, "X."+name, sA1), asInt(iv))}, tInt
+		}
+		if pd, ok := preds[id.Name]; ok {
+			if len(x.Args) != len(pd.Params) {
+				cfail("pred %s expects %d arguments", pd.Name, len(pd.Params))
+			}
+			inner := &CEnv{c: c, s: env.s, old: env.old, names: map[string]bound{}, oldNames: env.oldNames}
+			if p := c.eng.pkgByName[pd.Pkg]; p != nil {
+				inner.pkgScope = p.Scope()
+			}
+			for i, a := range x.Args {
+				v, t := env.eval(a)
+				inner.names[pd.Params[i]] = bound{v, t}
+			}
+			return inner.eval(pd.Expr)
 		}
 		// Go function of the package (pure contract)?
 		if env.pkgScope != nil {
